@@ -189,7 +189,7 @@ class Emitter:
         if k == "tuple_fix":
             return "tuple[" + ", ".join(self.expr(m) for m in a["of"]) + "]"
         if k == "tuple_bare":
-            return "tuple"
+            return "Tuple" if a.get("typing") else "tuple"  # (the unparametrised typing alias means the same)
         if k == "frozenset":
             return f"frozenset[{self.expr(a['of'])}]"
         if k == "sequence":
@@ -270,7 +270,7 @@ def emit_module(classes: list[dict], postponed: bool, uid: int) -> tuple[str, Em
         body += c.get("extra", "")
     head = ("from __future__ import annotations\n" if postponed else "") + (
         "import enum\nfrom dataclasses import dataclass, field\n"
-        "from typing import Annotated, Any, Literal, Mapping, NewType, Optional, Sequence, Union\n"
+        "from typing import Annotated, Any, Literal, Mapping, NewType, Optional, Sequence, Tuple, Union\n"
         "from pyoak.node import ASTNode\nfrom pyoak.origin import NO_ORIGIN, Origin\n\n"
         "class Color(enum.Enum):\n    RED = 'red'\n    GREEN = 'green'\n\n"
         "class Prio(enum.IntEnum):\n    LOW = 1\n    HIGH = 2\n\n"
